@@ -80,7 +80,8 @@ def _explore_proc(args):
 def _pack(r, recs):
     return dict(key=r.key, status=r.status, reason=r.reason, obligations=recs,
                 paths=r.paths, exits=r.exits, sha=r.sha, file=r.file, lineno=r.lineno,
-                time=round(r.time, 3), used=list(getattr(r, 'used', []) or []))
+                time=round(r.time, 3), used=list(getattr(r, 'used', []) or []),
+                partial=getattr(r, 'partial', None))
 
 
 def run_functions(keys, tier, extra=None, procs=None, expected_fail=()):
@@ -207,6 +208,12 @@ def check_property(pid, tier='quick', seed=0):
         if r['status'] == 'error':
             errors.append(r)
             continue
+        if r.get('partial'):
+            # explored in refutation-only mode (a loop without contract unrolled a few times, ghost code that no
+            # longer matches the source): a counter-model is a real one, a pass proves nothing
+            pr = dict(r)
+            pr['reason'] = 'refutation-only exploration, nothing proved: ' + r['partial']
+            undecided_funcs.append(pr)
         for o in r['obligations']:
             if o['kind'] == 'scope' and pid != 'C14':
                 continue        # timeout-scope obligations (G4) are decided by the C14 check only
